@@ -53,7 +53,10 @@ static Obs run_ct(const std::vector<int> &F) {
     const int aid = mesh.AddAttribute(ga, true, maxid + 1);
     for (int v = 0; v <= maxid; ++v) { const int32_t x = v; mesh.attribute(aid)->SetAttributeValue(AttributeValueIndex(v), &x); }
     for (size_t i = 0; i + 2 < F.size(); i += 3) { Mesh::Face fc; fc[0] = PointIndex(F[i]); fc[1] = PointIndex(F[i + 1]); fc[2] = PointIndex(F[i + 2]); mesh.AddFace(fc); }
-    MeshAttributeCornerTable act;
+    // every second list builds its attribute table in ONE object that has been initialised from all earlier lists (open and closed ones)
+    static MeshAttributeCornerTable reused_act;
+    MeshAttributeCornerTable fresh_act;
+    MeshAttributeCornerTable &act = (n_run % 2) ? reused_act : fresh_act;
     o.att_ok = act.InitFromAttribute(&mesh, ct.get(), mesh.attribute(aid));
     if (o.att_ok) {
       o.att_nv = act.num_vertices();
@@ -140,9 +143,11 @@ static int run_random(uint64_t seed, long n, int maxfaces) {
         for (int k = 0; k < 3; ++k) F.push_back(r.range(0, nv - 1));
       }
     }
-    // relabel to a dense id range (ids above nv were used for bow-ties)
+    // relabel to a dense id range (ids above nv were used for bow-ties) -- two lists in three; the third keeps ids nobody uses
+    // (isolated vertices in the middle of the id range), compacted only as far as needed to stay small
     std::vector<int> ids(F); std::sort(ids.begin(), ids.end()); ids.erase(std::unique(ids.begin(), ids.end()), ids.end());
-    for (int &x : F) x = (int)(std::lower_bound(ids.begin(), ids.end(), x) - ids.begin());
+    const bool gaps = i % 3 == 2;
+    for (int &x : F) { const int dense = (int)(std::lower_bound(ids.begin(), ids.end(), x) - ids.begin()); x = gaps ? dense + (dense >= 1 ? 1 : 0) + (dense >= 3 ? 2 : 0) : dense; }
     emit(F, run_ct(F), true, "random");
   }
   fprintf(stderr, "STATS run=%lld emitted=%lld diff=0\n", n_run, n_emit);
